@@ -77,6 +77,8 @@ async def scenario(scn: dict, obs: dict, tmp: Path) -> None:
         class H(logging.Handler):
             def emit(self, record):
                 logged.append(record.getMessage()[:12])
+                if scn.get('handler_delay'):
+                    time.sleep(float(scn['handler_delay']))       # a slow consumer of the log records in the parent
         h = H()
         lg = logging.getLogger('verif.worker')
         lg.addHandler(h)
